@@ -8,6 +8,7 @@ from .casadi_model import MatVal, InterpRaise, Unsupported, CA, mat_equal, to_ma
 from .frontend import Frontend, AnchorMissing
 from .poly import Poly, Atom, CFG, deep_subs, poly_syms, all_atoms, atom_syms
 from .series_table import read_series_table
+from .seriesform import SeriesTable, FormulaError
 
 
 def summary_sqrt_covariance_predict(it, f, args, kw, n):
@@ -35,7 +36,8 @@ class World:
             raise AnchorMissing("syntax errors: %s" % self.fe.errors)
         self.series = read_series_table(self.fe)
         self.series_by_key = {e.key: e for e in self.series}
-        self.it = Interp(self.fe, [e.key for e in self.series], SUMMARIES)
+        self.stable = SeriesTable(self.series)
+        self.it = Interp(self.fe, [e.key for e in self.series], SUMMARIES, self.stable.canon)
         self.t_front = time.time() - t0
         self._lie = None
 
@@ -59,6 +61,13 @@ class World:
         if name not in self.lie:
             raise AnchorMissing("cyecca.lie.%s is not exported" % name)
         return self.lie[name]
+
+    def S(self, text, squared, arg):
+        """Series atom of the table entry whose *formula* is `text` (DESIGN C02-D2), applied to `arg`."""
+        key = self.stable.find(text)
+        if key is None:
+            raise AnchorMissing("no entry of the series table has the formula %s" % text)
+        return cm.SeriesFn(key, squared)(arg)
 
     # ---- calling
     def call(self, o, meth, *a, **k):
